@@ -25,6 +25,7 @@ import multiprocessing
 import os
 import re
 import shutil
+import time
 
 from harness import tlc
 from harness.common import chunks
@@ -102,9 +103,9 @@ def plans(tier):
     return [
         ("tl", "echo", dict(nt=1, preset="echo", fuelp=3, ops=2, depth=2, words="small"), None, None),
         ("tl", "echofull", dict(nt=1, preset="echo", fuelp=3, ops=1, depth=2, words="full"), None, None),
-        ("tl", "num", dict(nt=0, fuelp=4, ops=1, depth=1, words="num"), None, None),
+        ("tl", "num", dict(nt=0, fuelp=3, ops=1, depth=1, words="num"), None, None),
         ("tl", "dup", dict(nt=1, preset="echo", fuelp=3, ops=1, depth=2, words="small", dup=True), None, None),
-        ("tl", "numdup", dict(nt=0, fuelp=5, ops=1, depth=1, words="small", numdup=True), None, None),
+        ("tl", "numdup", dict(nt=0, fuelp=5, ops=1, depth=1, words="tiny", numdup=True), None, None),
         ("tl", "sim2", dict(nt=2, fuelt=4, fuelp=5, depth=4, ops=6, words="full", anypos=True), 160000, 90),
         ("tl", "sim3", dict(nt=3, fuelt=3, fuelp=6, depth=4, ops=7, words="full", anypos=True), 120000, 120),
         ("ex", "ebfs", dict(fuel=2, ops=3, depth=4, lits="small", funcpow=True), None, None),
@@ -257,9 +258,13 @@ def execute(ctx, cases):
 # ----------------------------------------------------------------------------- the check
 def run(ctx):
     stats = {}
-    cases = {}           # dedupe on the concrete input
+    seen = set()         # dedupe on the concrete input, across plans (64-bit digests)
     oos = 0
     generated = 0
+    n = 0
+    bad = []
+    nontrivial = 0
+    samples = []
     for kind, name, kw, sim, depth in plans(ctx.tier):
         module = "TemplateLang" if kind == "tl" else "Expr"
         cfg = tl_cfg(**kw) if kind == "tl" else ex_cfg(**kw)
@@ -268,7 +273,7 @@ def run(ctx):
         if not res.ok:
             ctx.machinery("reference spec %s (%s) violates %s %s — a defect of the specification\n%s"
                           % (module, name, res.kind, res.name, res.out[-1500:]))
-        n0 = len(cases)
+        cases = {}
         emitted = 0
         for c in res.emitted:
             emitted += 1
@@ -277,14 +282,37 @@ def run(ctx):
                 continue
             for v in (tl_variants(c) if kind == "tl" else ex_variants(c)):
                 k = key_of(v) + "|" + v["variant"]
-                if k not in cases:
+                h = hashlib.blake2b(k.encode("utf-8", "replace"), digest_size=8).digest()
+                if h not in seen:
+                    seen.add(h)
                     cases[k] = v
         generated += emitted
-        stats[name] = {"module": module, "mode": "simulate" if sim else "bfs", "states": res.distinct or res.generated,
-                       "programs": emitted, "new_cases": len(cases) - n0, "tlc_s": round(res.wall, 1)}
-        ctx.note("%s/%s: %s programs, %d new cases, TLC %.0fs" % (module, name, emitted, len(cases) - n0, res.wall))
         res.out = ""
         res.emitted = []
+        # each plan is executed as soon as TLC has produced it (thorough plans have ~10^6 cases each)
+        caselist = [cases[k] for k in sorted(cases)]
+        cases = None
+        t0 = time.time()
+        cnt, b = execute(ctx, caselist)
+        if cnt != len(caselist):
+            ctx.machinery("executed %d of %d cases" % (cnt, len(caselist)))
+        n += cnt
+        bad.extend(b)
+        nt = set()
+        for c in caselist:
+            if c["kind"] == "tl" and "{{" in c["page"]:
+                nt.add((c["page"], tuple(sorted(c["templates"].items()))))
+            elif c["kind"] == "ex" and len(c["expr"].split()) > 1:
+                nt.add(c["expr"])
+        nontrivial += len(nt)          # inputs are already distinct across plans
+        if caselist and len(samples) < 6:
+            c = caselist[len(caselist) // 2]
+            samples.append({k: c[k] for k in c if k != "kind"})
+        stats[name] = {"module": module, "mode": "simulate" if sim else "bfs", "states": res.distinct or res.generated,
+                       "programs": emitted, "new_cases": cnt, "tlc_s": round(res.wall, 1), "exec_s": round(time.time() - t0, 1)}
+        ctx.note("%s/%s: %s programs, %d new cases, %d disagreements, TLC %.0fs, executed in %.0fs"
+                 % (module, name, emitted, cnt, len(b), res.wall, time.time() - t0))
+        caselist = None
     # action coverage (vacuity) on small configurations
     cov = {}
     for module, cfg, actions in (("TemplateLang", tl_cfg(nt=1, preset="echo", fuelp=3, ops=1, depth=1, emit=False), TL_ACTIONS),
@@ -296,22 +324,12 @@ def run(ctx):
         if missing:
             ctx.machinery("actions never taken in %s: %s" % (module, missing))
         cov[module] = {a: r.coverage[a] for a in actions}
-    caselist = [cases[k] for k in sorted(cases)]
-    n, bad = execute(ctx, caselist)
-    if n != len(caselist):
-        ctx.machinery("executed %d of %d cases" % (n, len(caselist)))
     bad.sort(key=lambda cr: (len(key_of(cr[0])), key_of(cr[0])))
     unknown = 0
     for c, r in bad:
         if unknown < 25 and ctx.violation(key_of(c), "%s [%s]" % (r, c["variant"]), c):   # replay files for the 25 shortest unknown ones
             unknown += 1
-    nontrivial = set()
-    for c in caselist:
-        if c["kind"] == "tl" and "{{" in c["page"]:
-            nontrivial.add(("tl", c["page"], tuple(sorted(c["templates"].items()))))
-        elif c["kind"] == "ex" and len(c["expr"].split()) > 1:
-            nontrivial.add(("ex", c["expr"]))
-    ctx.set_cover(evaluations=n, distinct_nontrivial=len(nontrivial), programs_from_tlc=generated,
+    ctx.set_cover(evaluations=n, distinct_nontrivial=nontrivial, programs_from_tlc=generated,
                   outside_modelled_range=oos, disagreements=len(bad), by_plan=stats, action_coverage=cov,
                   exhaustive=False,
                   rule="every program TLC builds with the generator automata of TemplateLang.tla / Expr.tla (breadth-first = all programs "
@@ -319,9 +337,8 @@ def run(ctx):
                        "then expanded by the real Expander in each spelling (w0 tight / w2 redundant newline+blank; min / redundant "
                        "parentheses / tight tokens); a case is one concrete (templates, page) or expression string; non-trivial = the "
                        "page contains template syntax, the expression at least one operator; distinct = distinct concrete input")
-    step = max(1, len(caselist) // 5)
-    for c in caselist[::step][:6]:
-        ctx.sample({k: c[k] for k in c if k != "kind"})
+    for c in samples:
+        ctx.sample(c)
     ctx.assume("the MediaWiki semantics are those written in spec/TemplateLang.tla and spec/Expr.tla (Help:Templates, Help:Extension:ParserFunctions)",
                "IEEE doubles compute dyadic rationals exactly; cases where a discontinuous operator meets an inexact operand at a jump are outside the modelled range",
                "a call of a missing template expands to nothing (what mwlib does; the statement leaves it open)",
